@@ -32,6 +32,13 @@ Proof.
   now apply walk_ranked_done with (rank := rank).
 Qed.
 
+(** A reported cycle is real: the commit lies on a cycle of predecessor edges recorded by one
+    of the operations (so the error is never a false alarm, with or without [WF]). *)
+Theorem C46_cycle_sound : forall ops start c,
+  snd (walk_predecessors ops start) = Cycle c ->
+  exists m, In (Some m) ops /\ clos_trans_1n N (edge m) c c.
+Proof. intros ops start c H. exact (walk_cycle_sound ops 0 start c H). Qed.
+
 (** Completeness and uniqueness.  [WF]: a commit is recorded by at most one operation and
     recorded predecessors are never commits recorded by a newer operation.  Then the walk
     lists exactly the commits reachable from the start commits through recorded
@@ -161,6 +168,7 @@ Example C46_nonvacuous :
 Proof. vm_compute. repeat split. Qed.
 
 Print Assumptions C46_terminates.
+Print Assumptions C46_cycle_sound.
 Print Assumptions C46_complete_once.
 Print Assumptions C46_topological.
 Print Assumptions C46_checker_sound.
